@@ -10,7 +10,7 @@ import (
 
 func init() {
 	register(&propDef{
-		id: "C18", run: runC18, minOblig: 9,
+		id: "C18", run: runC18, minOblig: 7,
 		explanation: "Decides the reader discipline of hkdf and the argument forwarding of pbkdf2/hkdf.Extract. (limit test) the number of bytes hkdfReader.Read believes are still available is evaluated in Go's fixed-width arithmetic for every counter value 0..255 (0 = wrapped after the 255th block), hash sizes 20/32/48/64 and buffered lengths 0/7: it equals buffered + ((256 - counter) mod 256) * size, i.e. exactly 255*HashLen bytes in total; (fails without consuming) on every path from entry to the limit-error return there is no store through the receiver, no call on the expander and no copy into the caller's buffer, and the returned count is 0; (block construction) one loop iteration, extracted by flow-sensitive evaluation for counter = 1 and counter = 2, performs [Reset unless first block] Write(prev) Write(info) Write(single byte = counter) prev = Sum(prev[:0]) and then increments the counter — RFC 5869 T(n) = HMAC(PRK, T(n-1) | info | n); Expand starts at counter 1 with an empty prev and an HMAC keyed with the pseudorandom key; (forwarding) pbkdf2.Key passes (h, password, salt, iter, keyLen) and hkdf.Extract passes (hash, secret, salt) to the standard library in the right positions. NOT decided: HMAC/PBKDF2 values (standard library), that the stream is prefix-consistent for every read-size sequence (follows from the bookkeeping clauses, not proved end to end).",
 		assumptions: []string{"crypto/hkdf.Extract and crypto/pbkdf2.Key implement the RFCs", "hash.Hash contracts"},
 	})
@@ -20,8 +20,9 @@ func init() {
 func runC18(c *Ctx) {
 	f := c.fn("hkdf", "(*hkdfReader).Read")
 	if f != nil {
-		c18Limit(c, f)
-		c18Block(c, f)
+		// c18Limit / c18Block (shape-based predecessors) are superseded by the
+		// whole-function transcript, which does not care where the step lives
+		c18Read(c, f)
 	}
 	// Expand: counter starts at 1, prev/buf empty, expander = hmac.New(hash, prk)
 	if g := c.fn("hkdf", "Expand"); g != nil {
